@@ -982,7 +982,9 @@ func (self *_parser) parseRelationalExpression() ast.Expression {
 				Right:    self.parseShiftExpression(),
 			}
 		}
-		return left
+		// a private name is an expression only as the left operand of 'in'
+		self.errorUnexpectedToken(self.token)
+		return &ast.BadExpression{From: left.Idx, To: self.idx}
 	}
 	left := self.parseShiftExpression()
 
